@@ -23,6 +23,7 @@ pub mod srch;
 pub mod mate;
 pub mod refsearch;
 pub mod c17;
+pub mod fuzzplay;
 pub mod c06;
 
 use frame::{Ctx, Report};
